@@ -7,7 +7,7 @@ from ..gen import Scenario, op, send
 
 ID = "C13"
 BUDGET = {"quick": 40, "thorough": 600}
-MAX_RUNS = {"quick": 1200, "thorough": 200000}
+MAX_RUNS = {"quick": 5000, "thorough": 200000}
 RULE = ("plans: timeouts.idle / timeouts.udp each in {absent,0,1,2,5,30,600,3600} x listener kind (http, socks4/5, reverse tcp, quic, "
         "socks5 UDP associate, reverse udp) x traffic pattern (silent, one-directional trickle just under the period, burst then silence, "
         "both directions alternating) through the real main() start-up wiring; non-trivial = the tunnel was established and the run "
